@@ -118,6 +118,7 @@ func cmdCheck(argv []string) int {
 	noEvidence := fs.Bool("no-evidence", false, "do not write evidence")
 	fs.Parse(argv)
 	start := time.Now()
+	resetGlobals(false)
 	if *prop == "" {
 		fmt.Fprintln(os.Stderr, "need -prop")
 		return 2
@@ -190,6 +191,7 @@ func cmdCheck(argv []string) int {
 			engineErrs = append(engineErrs, fmt.Sprintf("function under contract not found in the current tree: %s", k))
 			continue
 		}
+		resetGlobals(cs.Funcs[k].Opts["strings"] == "seq")
 		e := newFnExec(P, fn, k, cs.Funcs[k])
 		e.run()
 		execs[k] = e
@@ -214,6 +216,16 @@ func cmdCheck(argv []string) int {
 		pre := &Obligation{Name: k + ":requires-sat", Kind: "vacuity", Func: k, Goal: False, Guard: True, NFacts: e.entryFacts, exec: e, Cover: true}
 		all = append(all, pre)
 		all = append(all, e.obls...)
+		pre.Script = pre.script(false)
+		for _, o := range e.obls {
+			if o.Result != "trivial" {
+				n := 0
+				if v := e.con.Opts["split"]; v != "" {
+					fmt.Sscan(v, &n)
+				}
+				o.prepare(n)
+			}
+		}
 		for a, n := range e.assumed {
 			assumed[a] += n
 		}
@@ -227,18 +239,20 @@ func cmdCheck(argv []string) int {
 	}
 	// lemmas
 	for _, l := range lemmas {
+		resetGlobals(l.Opts["strings"] == "seq")
 		o, err := lemmaObligation(P, l)
 		if err != nil {
 			engineErrs = append(engineErrs, fmt.Sprintf("lemma %s: %v", l.Name, err))
 			continue
 		}
+		o.prepare(0)
 		all = append(all, o)
 	}
 	genS := time.Since(start).Seconds() - loadS
 
 	// solve
 	var wg sync.WaitGroup
-	sem := make(chan struct{}, runtime.NumCPU())
+	sem := make(chan struct{}, max(2, runtime.NumCPU()*2/3))
 	for i, o := range all {
 		wg.Add(1)
 		sem <- struct{}{}
@@ -356,7 +370,7 @@ func newFnExec(P *Prog, fn *ssa.Function, key string, con *Contract) *FnExec {
 		cellType: map[int]types.Type{}, cellName: map[int]string{}, in: map[*ssa.BasicBlock]*State{}, out: map[*ssa.BasicBlock]*State{},
 		edge: map[[2]int]*Term{}, loops: map[*ssa.BasicBlock]*loopInfo{}, kindN: map[string]int{}, classes: map[string]string{},
 		varAddr: map[types.Object][]ssa.Value{}, nonNil: map[int]*ssa.BasicBlock{}, params: map[string]Val{}, paramTy: map[string]types.Type{},
-		ghost: map[string]*Term{}, assumed: map[string]int{}, iterCells: map[*ssa.Range]int{}, iterSort: map[int]string{}, closures: map[*Term]*ssa.MakeClosure{}}
+		ghost: map[string]*Term{}, assumed: map[string]int{}, iterCells: map[*ssa.Range]int{}, iterSort: map[int]string{}, closures: map[*Term]*ssa.MakeClosure{}, wfDone: map[string]bool{}, epochCtr: map[int]*Term{}}
 }
 
 func shortKey(k string) string {
@@ -374,7 +388,7 @@ func lemmaObligation(P *Prog, l *Lemma) (*Obligation, error) {
 	if err != nil {
 		return nil, err
 	}
-	return &Obligation{Name: "lemma:" + l.Name, Kind: "lemma", Func: "lemma:" + l.Name, Goal: g, Guard: True, NFacts: len(e.facts), exec: e, Clause: l.Body.Text, Lemma: true}, nil
+	return &Obligation{Name: "lemma:" + l.Name, Kind: "lemma", Func: "lemma:" + l.Name, Goal: skolemize(g), Guard: True, NFacts: len(e.facts), exec: e, Clause: l.Body.Text, Lemma: true}, nil
 }
 
 func writeEvidence(verif, prop, tier string, seed int, wall, loadS, genS, solverS float64, nObl, nDis int, freps []*fnReport, oreps []oblReport,
